@@ -201,6 +201,13 @@ fn run_schedule(sched: &[f64], assigns: &[Vec<Option<K>>], chain_first: bool, ra
                     acc.sink.add($sig, rk, || (format!("frame {f} (delta {dsec}s): {msg} | before {:?} after {:?} | acted-on key {:?}, ended in previous frame: {:?}, foreign ended: {} | chain {:?} assignments {:?} deltas {:?}", o, n, ent.acted, ent.ended_prev, ent.foreign_ended_prev, map, ent.assign, sched), case_json(sched, ent)));
                 }};
             }
+            // ---- the selector starts on the key it was built with
+            if f == 0 && assigned.is_none() {
+                let want = if ent.chain % 2 == 1 { K::B } else { K::A };
+                if o.key != want {
+                    viol!("S0:initial-key-not-the-configured-one", "selector starts on {:?}, configured initial key {:?}", o.key, want);
+                }
+            }
             // ---- S5 / S6: who may change the key
             acc.rule_checks += 1;
             let expected_move = match ent.ended_prev {
